@@ -4,6 +4,7 @@ import (
 	"reflect"
 	"sort"
 	"strings"
+	"unsafe"
 )
 
 // CatalogEntry is a compiled (named / recursive / generic / embedded) type.
@@ -417,5 +418,60 @@ type RefNode struct {
 
 func init() {
 	RegisterNamed("RefNode", RefNode{})
+	markRecursive()
+}
+
+// Large comparable structs: as map keys and values they are beyond the sizes up
+// to which the Go runtime stores keys and elements inline (128 bytes) and beyond
+// plenc's shared 1024-byte zero buffer for absent map keys and values.
+type Blk64 struct {
+	A int64  `plenc:"1"`
+	B string `plenc:"2"`
+	C uint64 `plenc:"3"`
+	D uint32 `plenc:"4"`
+	E bool   `plenc:"5"`
+	F int8   `plenc:"6"`
+	G string `plenc:"7"`
+	H int64  `plenc:"8,flat"`
+}
+
+type Big192 struct {
+	B1 Blk64 `plenc:"1"`
+	B2 Blk64 `plenc:"2"`
+	B3 Blk64 `plenc:"3"`
+}
+
+type Big1024 struct {
+	B1  Blk64 `plenc:"1"`
+	B2  Blk64 `plenc:"2"`
+	B3  Blk64 `plenc:"3"`
+	B4  Blk64 `plenc:"4"`
+	B5  Blk64 `plenc:"5"`
+	B6  Blk64 `plenc:"6"`
+	B7  Blk64 `plenc:"7"`
+	B8  Blk64 `plenc:"8"`
+	B9  Blk64 `plenc:"9"`
+	B10 Blk64 `plenc:"10"`
+	B11 Blk64 `plenc:"11"`
+	B12 Blk64 `plenc:"12"`
+	B13 Blk64 `plenc:"13"`
+	B14 Blk64 `plenc:"14"`
+	B15 Blk64 `plenc:"15"`
+	B16 Blk64 `plenc:"16"`
+}
+
+type Big1032 struct {
+	Big Big1024 `plenc:"1"`
+	X   int64   `plenc:"2"`
+}
+
+func init() {
+	if unsafe.Sizeof(Blk64{}) != 64 || unsafe.Sizeof(Big1024{}) != 1024 || unsafe.Sizeof(Big1032{}) != 1032 {
+		panic("catalog: Blk64/Big1024/Big1032 do not have the intended sizes")
+	}
+	RegisterNamed("Blk64", Blk64{})
+	RegisterNamed("Big192", Big192{})
+	RegisterNamed("Big1024", Big1024{})
+	RegisterNamed("Big1032", Big1032{})
 	markRecursive()
 }
